@@ -57,12 +57,14 @@ Record fixes := mkFx {
   fx_ellipse : bool;   (* Ellipse transforms y with transformY                      (finding) *)
   fx_lone : bool;      (* setAttr of *Rect / *Group keeps own attributes            (7a67899) *)
   fx_gridn : bool;     (* gridnFunc rejects unit <= 0 before calling the platform   (292a02f) *)
+  fx_gridn_bound : bool; (* gridnFunc rejects units below minGridUnit (and NaN); Gridn counts
+                            rounds with an integer, at most maxGridRounds + 1       (e0d2614) *)
   fx_text : bool;      (* text filled with the fill colour and not stroked          (finding) *)
   fx_baseline : bool;  (* Font keeps the mapped baseline name                       (finding) *)
   fx_family : bool }.  (* the root element carries the default font family          (finding) *)
-Definition cur : fixes := mkFx false true true false false false.    (* /repo HEAD *)
-Definition none : fixes := mkFx false false false false false false. (* before the fix commits *)
-Definition all : fixes := mkFx true true true true true true.        (* with every proposed fix *)
+Definition cur : fixes := mkFx false true true true false false false.    (* /repo HEAD *)
+Definition none : fixes := mkFx false false false false false false false. (* before the fix commits *)
+Definition all : fixes := mkFx true true true true true true true.        (* with every proposed fix *)
 
 (* ---------- attributes as they sit on an element ----------
    svg.go: type Attr / type TextAttr.  Every field is `omitempty`: "" / nil
@@ -146,7 +148,8 @@ Record state := mkS { k : core; pending : list item; pushed : list top }.
 Definition sf : float := float_of_Z c_scaleFactor.
 Definition scale (s : float) : float := fmul sf s.
 Definition tx (x : float) : float := scale x.
-Definition ty (y : float) : float := fsub (scale (float_of_Z c_evyHeight)) (scale y).
+Definition ty_origin : float := scale (float_of_Z c_evyHeight).   (* rt.scale(evyHeight) *)
+Definition ty (y : float) : float := fsub ty_origin (scale y).
 
 (* ---------- commands = the calls of evaluator.GraphicsPlatform ---------- *)
 Record fontprops := mkFP {
@@ -225,23 +228,43 @@ Definition core_step (fx : fixes) (kk : core) (c : cmd) : core :=
 
 (* ---------- Gridn's loop:  for i := 0.0; i <= 1000; i += unit ----------
    one (hLine, vLine) pair per round; [true] marks the rounds with lineCnt%5 == 0 *)
-Fixpoint grid_loop (fuel : nat) (i unit : float) (cnt : nat) : option (list (geom * bool)) :=
+Definition grid_h : float := float_of_Z (c_evyHeight * c_scaleFactor).   (* height := float64(evyHeight * scaleFactor) *)
+Definition grid_w : float := float_of_Z (c_evyWidth * c_scaleFactor).
+Definition grid_every : Z := Z.of_nat grid_thick_every.
+Definition grid_pair (i : float) (thick : bool) (r : list (geom * bool)) : list (geom * bool) :=
+  (GLine i 0%float i grid_h, thick) :: (GLine 0%float i grid_w i, thick) :: r.
+
+Fixpoint grid_loop (fuel : nat) (i unit : float) (cnt : Z) : option (list (geom * bool)) :=
   match fuel with
   | O => None   (* OutOfFuel: the loop did not end within the budget *)
   | S f =>
       if PrimFloat.leb i grid_bound then
-        match grid_loop f (fadd i unit) unit (S cnt) with
-        | Some r =>
-            let h := float_of_Z (c_evyHeight * c_scaleFactor) in
-            let w := float_of_Z (c_evyWidth * c_scaleFactor) in
-            let thick := Nat.eqb (Nat.modulo cnt grid_thick_every) 0 in
-            Some ((GLine i 0%float i h, thick) :: (GLine 0%float i w i, thick) :: r)
+        match grid_loop f (fadd i unit) unit (Z.succ cnt) with
+        | Some r => Some (grid_pair i (Z.eqb (Z.modulo cnt grid_every) 0) r)
         | None => None
         end
       else Some []
   end.
-Definition grid_lines (fuel : nat) (u : float) : option (list (geom * bool)) :=
-  grid_loop fuel 0%float (tx u) O.
+
+(* FIX gridn-tiny-unit-does-not-terminate (proposed_fixes/C19-gridn-tiny-unit.diff):
+     for lineCnt := 0; lineCnt <= maxGridRounds; lineCnt++ {
+         i := float64(lineCnt) * unit
+         if !(i <= 1000) { break } ... }
+   structural on the number of rounds left: no fuel, it always ends *)
+Fixpoint grid_rounds (left : nat) (n : Z) (unit : float) : list (geom * bool) :=
+  match left with
+  | O => []
+  | S left' =>
+      let i := fmul (float_of_Z n) unit in
+      if PrimFloat.leb i grid_bound then
+        grid_pair i (Z.eqb (Z.modulo n grid_every) 0) (grid_rounds left' (Z.succ n) unit)
+      else []
+  end.
+Definition grid_count (unit : float) : list (geom * bool) :=
+  grid_rounds (Z.to_nat (grid_max_rounds + 1)) 0 unit.
+
+Definition grid_lines (fx : fixes) (fuel : nat) (u : float) : option (list (geom * bool)) :=
+  if fx_gridn_bound fx then Some (grid_count (tx u)) else grid_loop fuel 0%float (tx u) 0%Z.
 (* `hLine.StrokeWidth = &thickWdith` *)
 Definition grid_line_attr (thick : bool) : eattr :=
   if thick then mkA [] [] (Some grid_thick_width) [] [] else a0.
@@ -272,7 +295,7 @@ Definition draw_item (fx : fixes) (fuel : nat) (kk : core) (c : cmd) : option (o
       Some (Some (IShape (GEllipse x' y' (scale rx) (scale ry) tr) a0 t0))
   | CText s => Some (Some (IShape (GText (cx kk) (cy kk) s) (text_attr fx (kpen kk)) t0))
   | CGridn u c =>
-      match grid_lines fuel u with
+      match grid_lines fx fuel u with
       | Some l => Some (Some (IGrid (mkA [] c None [] []) t0 (map (fun gb => (fst gb, grid_line_attr (snd gb))) l)))
       | None => None
       end
@@ -460,7 +483,7 @@ Definition spec_shapes (fx : fixes) (fuel : nat) (kk : core) (c : cmd) : option 
                       (if PrimFloat.eqb rot 0%float then None else Some (rot, x', y')), sp, None)]
   | CText s => Some [(GText (cx kk) (cy kk) s, spec_text_paint fx p, Some (spec_font fx (kfnt kk)))]
   | CGridn u c =>
-      match grid_lines fuel u with
+      match grid_lines fx fuel u with
       | Some l => Some (map (spec_grid_line p c) l)
       | None => None
       end
@@ -514,12 +537,16 @@ Fixpoint guard (fx : fixes) (fuel : nat) (st : state) (l : list cmd) : bool :=
 
 (* ---------- argument validation before the platform is called ----------
    evaluator/builtin.go gridnFunc (since 292a02f):
-   `if unit.V <= 0 { return ErrBadArguments }` — the program panics, nothing
+   `if unit.V <= 0 { return ErrBadArguments }` (with the proposed bound:
+   `if !(unit.V >= minGridUnit)`) — the program panics, nothing
    after the call runs, and main.go still writes the SVG drawn so far.
    [effective fx l] = the calls that reach the platform. *)
 Definition wrapper_accepts (fx : fixes) (c : cmd) : bool :=
   match c with
-  | CGridn u _ => if fx_gridn fx then negb (PrimFloat.leb u 0%float) else true
+  | CGridn u _ =>
+      if fx_gridn_bound fx then PrimFloat.leb grid_min_unit u   (* `if !(unit.V >= minGridUnit)`: NaN is rejected too *)
+      else if fx_gridn fx then negb (PrimFloat.leb u 0%float)   (* `if unit.V <= 0` *)
+      else true
   | _ => true
   end.
 Fixpoint effective (fx : fixes) (l : list cmd) : list cmd :=
@@ -674,8 +701,9 @@ Definition enc_fshape (f : fshape) : sx :=
   let '(g, a, t) := f in enc_shape g a t.
 
 (* entry point: (fuel (cmd…)) ↦
-   (ok tree flat spec_cur spec_all guard tree_all flat_all rejected) | (hang)
-   computed on the calls that reach the platform under the wrappers in force *)
+   (ok tree flat spec_cur spec_intended guard tree_all flat_all spec_all rejected_cur rejected_all)
+   | (hang rejected_cur rejected_all)
+   each variant computed on the calls that reach the platform under ITS wrappers *)
 Definition svg_case (x : sx) : sx :=
   match x with
   | Lst [Int fuel; Lst cs] =>
@@ -683,17 +711,33 @@ Definition svg_case (x : sx) : sx :=
       | Some l =>
           let fuel := Z.to_nat fuel in
           let prog := program (effective cur l) in
-          match run cur fuel pre_init prog, run all fuel pre_init prog,
-                spec cur fuel prog, spec all fuel prog with
-          | Some st, Some stf, Some sa, Some si =>
+          let proga := program (effective all l) in
+          (* the intended meaning with the grid loop of the model in force *)
+          let intended_cur := mkFx true true true (fx_gridn_bound cur) true true true in
+          match run cur fuel pre_init prog, run all fuel pre_init proga,
+                spec cur fuel prog, spec intended_cur fuel prog, spec all fuel proga with
+          | Some st, Some stf, Some sa, Some si, Some sall =>
               Lst [Sym (s_ "ok"); enc_doc (render cur st);
                    Lst (map enc_fshape (flatten (render cur st)));
                    Lst (map enc_fshape sa); Lst (map enc_fshape si);
                    sx_bool (guard cur fuel pre_init prog);
                    enc_doc (render all stf);
                    Lst (map enc_fshape (flatten (render all stf)));
-                   sx_bool (rejected cur l)]
-          | _, _, _, _ => Lst [Sym (s_ "hang")]
+                   Lst (map enc_fshape sall);
+                   sx_bool (rejected cur l); sx_bool (rejected all l)]
+          | _, _, _, _, _ => Lst [Sym (s_ "hang"); sx_bool (rejected cur l); sx_bool (rejected all l)]
+          end
+      | None => Sym (s_ "decode-error")
+      end
+  | Lst [Int fuel; Lst cs; Sym which] =>
+      (* brief answer for very large documents: only the render tree of one variant *)
+      match dec_cmds cs with
+      | Some l =>
+          let fuel := Z.to_nat fuel in
+          let fx := if str_eqb which (s_ "all") then all else cur in
+          match run fx fuel pre_init (program (effective fx l)) with
+          | Some st => Lst [Sym (s_ "brief"); enc_doc (render fx st); sx_bool (rejected cur l); sx_bool (rejected all l)]
+          | None => Lst [Sym (s_ "hang"); sx_bool (rejected cur l); sx_bool (rejected all l)]
           end
       | None => Sym (s_ "decode-error")
       end
